@@ -33,7 +33,9 @@ type Schedule struct {
 // InjectedError is the unique failure a Fail step makes the reader return.
 type InjectedError struct{ ID int }
 
-func (e *InjectedError) Error() string { return fmt.Sprintf("verifsim: injected read failure #%d", e.ID) }
+func (e *InjectedError) Error() string {
+	return fmt.Sprintf("verifsim: injected read failure #%d", e.ID)
+}
 
 // ReadRec is the record of one Read call.
 type ReadRec struct {
@@ -90,8 +92,55 @@ type SimReader struct {
 	zeros     int
 	term      error
 	dataReads int
-	// WantHist[len(p) bucket] counts offered buffer sizes (reader-state reach).
-	States map[string]int
+	// States counts abstract reader states reached: offered len(p) bucket x
+	// position class of the stream cursor x kind of return (reach measure).
+	States [5][4][6]int
+}
+
+// StateNames names the dimensions of SimReader.States.
+var StateNames = [3][]string{
+	{"want<64", "want<1024", "want<8192", "want<16384", "want=16384+"},
+	{"at-line-start", "mid-line", "between-CR-LF", "at-end"},
+	{"data", "zero", "eof", "err", "data+eof", "data+err"},
+}
+
+func (r *SimReader) noteState(want, n int, err error, off int) {
+	w := 4
+	switch {
+	case want < 64:
+		w = 0
+	case want < 1024:
+		w = 1
+	case want < 8192:
+		w = 2
+	case want < 16384:
+		w = 3
+	}
+	p := 1
+	switch {
+	case off >= len(r.B):
+		p = 3
+	case off == 0 || r.B[off-1] == '\n':
+		p = 0
+	case r.B[off-1] == '\r' && r.B[off] == '\n':
+		p = 2
+	}
+	k := 0
+	switch {
+	case n > 0 && err == io.EOF:
+		k = 4
+	case n > 0 && err != nil:
+		k = 5
+	case n > 0:
+		k = 0
+	case err == io.EOF:
+		k = 2
+	case err != nil:
+		k = 3
+	default:
+		k = 1
+	}
+	r.States[w][p][k]++
 }
 
 // NewSimReader builds a reader over b.
@@ -117,6 +166,7 @@ func (r *SimReader) Terminated() bool { return r.term != nil }
 
 func (r *SimReader) rec(want, n int, err error, off int) {
 	r.Stats.Reads++
+	r.noteState(want, n, err, off)
 	ev := r.Clock.Tick()
 	if !r.KeepRecs {
 		return
